@@ -7,30 +7,33 @@ def _c06_out_kind(o):
         r = w[2][2:]
         r = "err:last" if r.startswith("err:last") else r.split(":")[0] if r.startswith(("ok", "ignored")) else r
         return "fiber attempts=%d %s" % (n, r)
+    if o.startswith("N="):
+        w = o.split(" ")
+        return "spec sessions=%s %s" % (w[1][2:], w[2])
     last = o.split(" ")[-1] if o else ""
     return "dec last=" + last.split(":")[0]
 
 
 PROPS["C06"] = dict(
-    level_text="Theorems (Props/C06.lean) prove, for every plan (targets with or without a connection), every history of per-attempt outcomes of any length (every RequestAttemptError / DbError variant with arbitrary field values), the idempotence flag, the initial consistency and each of the three built-in retry policies: a request not marked idempotent gets attempt k+1 only if attempt k failed with unavailable / bootstrapping / no free stream id / read timeout (never after a broken connection, overloaded / server / truncate error or write timeout); the default policy makes at most one attempt at serial consistency; attempts <= plan length + 2 / 1 / 0 same-node retries (so the loop terminates: the model's fuel is proved never exhausted); the fiber sends exactly 1 + (number of retry decisions) attempts unless the plan ran out, on the target and at the consistency the decision named; fallthrough sends one attempt. The models are tied to retry/*.rs and execution.rs by a differential run (exhaustive decision tables over all reachable session states + the real run_request_no_side_effects over synthetic targets) with an oracle written from the property text.",
+    level_text="Theorems (Props/C06.lean) prove, for every plan (targets whose get_connection() may succeed or fail at every single call), every history of per-attempt outcomes of any length (every RequestAttemptError / DbError variant with arbitrary field values), the idempotence flag, the initial consistency and each of the three built-in retry policies: a request not marked idempotent gets attempt k+1 only if attempt k failed with unavailable / bootstrapping / no free stream id / read timeout (never after a broken connection, overloaded / server / truncate error or write timeout); the default policy makes at most one attempt at serial consistency; attempts <= plan length + 2 / 1 / 0 same-node retries per fiber (so the loop terminates: the model's fuel is proved never exhausted), and with speculative execution (n fibers sharing one plan iterator, each with its own retry session, any interleaving) total attempts <= plan length + n x (2 / 1 / 0); the fiber sends exactly 1 + (number of retry decisions) attempts unless the plan ran out, on the target and at the consistency the decision named; fallthrough sends one attempt. The models are tied to retry/*.rs and execution.rs by a differential run (exhaustive decision tables over all reachable session states + the real run_request_no_side_effects over synthetic targets) with an oracle written from the property text.",
     level_note="Trusted: Lean kernel + {propext, Classical.choice, Quot.sound}; hand-written models Model/Retry.lean, Model/Exec.lean (tie = differential harness through the cfg(scylla_verif) pass-throughs request_info / run_request). The transparent re-prepare inside one attempt is C14, speculative fibers are C13.",
     lean_modules=["ScyllaVerif.Props.C06"],
-    rule="case = (dec: policy, idempotence, history of (consistency, error) fed to one retry session) or (run: policy, idempotence, initial consistency, plan, scripted outcomes) or (runx: the same under a scripted test retry policy); distinct case lines whose implementation output contains a retry/ignore decision or at least one attempt count as non-trivial",
-    trivial=lambda c, o: o in ("-", "bad-case") or o.startswith("A=- "),
+    rule="case = (dec: policy, idempotence, history of (consistency, error) fed to one retry session) or (run: policy, idempotence, initial consistency, plan, scripted outcomes) or (runx: the same under a scripted test retry policy) or (spec: the same entry point with a speculative execution policy on a paused clock, checker mode); distinct case lines whose implementation output contains a retry/ignore decision or at least one attempt count as non-trivial",
+    trivial=lambda c, o: o in ("-", "bad-case") or o.startswith("A=- ") or o.startswith("N=0 "),
     out_kind=_c06_out_kind,
     trusted=[
         "Model/Retry.lean transcribes default.rs:57-170, downgrading_consistency.rs:54-214, fallthrough.rs:30-32 (i32 fields as Int: only compared, never computed with); Model/Exec.lean transcribes execution.rs:525-650 (one fiber; labelled continue/break as recursion on (rest of plan, same target))",
-        "the hook's synthetic targets either always or never yield a connection; a target whose pool breaks between two same-target attempts is outside the correspondence (the model treats it like the code: next target, nothing sent)",
+        "a target of the plan is a connection oracle indexed by the get_connection() call on it (Model/Exec.lean `Target`), because execution.rs:546 asks for a connection again before EVERY attempt; the harness reaches the case through the hook run_request_calls (a synthetic target whose get_connection succeeds n times and then fails): after RetrySameTarget the next attempt goes to the same target, or to a later one when that call fails",
         "run_request_once is scripted: the k-th call returns the k-th scripted outcome; what an attempt does on the wire (incl. the re-prepare after UNPREPARED) is C14's subject",
     ],
     assumptions=[
-        "no speculative execution policy (single fiber); no client-side request timeout (the timeout only cuts a history short)",
+        "the per-fiber theorems (everything about `run`/`runWith`) are about ONE fiber; with a speculative execution policy (idempotent requests only, execution.rs:433) the request is several such fibers sharing one plan iterator, each with its own retry session: the bound for that case is attempts_bounded_speculative (plan length + (1+m) x same-node retries, any interleaving); the multi-fiber step model (Exec.lean Fiber.step, same loop body as exec) is tied to the code only through the spec cases' interleaving-independent oracle (the speculative scheduler itself is C13's subject); no client-side request timeout (it only cuts a history short)",
         "the retry policy is one of DefaultRetryPolicy, DowngradingConsistencyRetryPolicy, FallthroughRetryPolicy",
     ],
     partial=[
         "DESIGN X(c) (thorough tier: the same histories injected end-to-end by the mock cluster, counting QUERY/EXECUTE/BATCH frames) is not built: the execution loop is tied at RequestExecutionParams::run_request_no_side_effects with a scripted run_request_once, so 'one run_request_once call = one request frame' is C14's/C09's subject, not re-checked here",
     ],
-    explanation="dec cases: exhaustive decision tables (112 error classes with concrete boundary field values x idempotence x 11 consistencies x every session state reachable by flag-setting histories of length <= 3 (default) / <= 2 + sampled 3 (downgrading; all of length 3 in the thorough tier)) against the real RetrySession objects, plus random histories of length <= 7. run cases: the real run_request_no_side_effects over synthetic targets (plans of 0..5 targets incl. targets without a connection): exhaustive outcome sequences of length <= 2 (thorough 3) over a 14-letter alphabet on all plans of length <= 3, directed same-error-forever and flag-order histories, random histories of length <= plan + 3; the retry policy is wrapped in a recording policy, the oracle checks the property text on the attempt log (re-send of a non-idempotent request only after a proof error, default/serial <= 1 attempt, attempts <= plan + 2/1/0, attempts = 1 + retry decisions unless the plan ran out, target and consistency of every attempt as decided, session consulted with the right error/idempotence/consistency, one session). runx cases: the same loop under a scripted test RetryPolicy so that every decision arm is driven with every consistency (no built-in policy returns RetryNextTarget(Some)). A scratch-copy mutation self-test (24 seeded changes to default.rs / downgrading_consistency.rs / execution.rs) was detected 24/24 (20 by the oracle with a replayable case, 4 behaviour changes that do not violate the property text by the model diff).",
+    explanation="dec cases: exhaustive decision tables (112 error classes with concrete boundary field values x idempotence x 11 consistencies x every session state reachable by flag-setting histories of length <= 3 (default) / <= 2 + sampled 3 (downgrading; all of length 3 in the thorough tier)) against the real RetrySession objects, plus random histories of length <= 7. run cases: the real run_request_no_side_effects over synthetic targets (plans of 0..5 targets incl. targets without a connection): exhaustive outcome sequences of length <= 2 (thorough 3) over a 14-letter alphabet on all plans of length <= 3, directed same-error-forever and flag-order histories, random histories of length <= plan + 3; the retry policy is wrapped in a recording policy, the oracle checks the property text on the attempt log (re-send of a non-idempotent request only after a proof error, default/serial <= 1 attempt, attempts <= plan + 2/1/0, attempts = 1 + retry decisions unless the plan ran out, target and consistency of every attempt as decided, session consulted with the right error/idempotence/consistency, one session). runx cases: the same loop under a scripted test RetryPolicy so that every decision arm is driven with every consistency (no built-in policy returns RetryNextTarget(Some)). Targets whose pool dries up between two same-target attempts (plan digits 2..9 = get_connection succeeds d-1 times) are driven through run_request_calls: all plans of length <= 3 over {never, always, once, twice} x orders of the same-node-retry errors, and a quarter of the random plans. spec cases: SimpleSpeculativeExecutionPolicy(max_retry_count m <= 3, 100 ms) on a paused tokio clock, every run_request_once call takes a scripted virtual delay so that 1..1+m fibers really interleave; printed and checked are only interleaving-independent facts (total attempts <= plan + fibers x same-node retries, <= 1 + k attempts per target, sessions <= fibers, non-idempotent = single fiber); the model runs as a checker (accepts the line iff it satisfies attempts_bounded_speculative). A scratch-copy mutation self-test (24 seeded changes to default.rs / downgrading_consistency.rs / execution.rs) was detected 24/24 (20 by the oracle with a replayable case, 4 behaviour changes that do not violate the property text by the model diff).",
     shrink=dict(head_words=3, sep=";"),
     chunk=6000,
 )
